@@ -3,7 +3,8 @@ DESIGN_REF = "DESIGN.md §3 C14"
 TECHNIQUE = "Lean 4 theorems over a hand-written executable model of utils.rs/si_iterator.rs (induction on point count / Nat.div_add_mod / field identities), tied to the code by a bit-level correspondence run plus predicate search"
 LEVEL_TEXT = ("Proved for all endpoints, all point counts and all shapes over the exact-arithmetic model (any field of "
               "characteristic 0; list structure for any scalar type): enumeration length/first/last/constant spacing, traversal "
-              "from either end and any mixed front/back draining (partition invariant), row-major 2-D order with 1-D axis values, "
+              "from either end and any mixed front/back draining (partition invariant), positional access (nth / nth_back, on which "
+              "skip/step_by/take rest) from any reachable state of the 1-D and 2-D iterators, row-major 2-D order with 1-D axis values, "
               "index-map inverses, wavelength↔frequency endpoints/ordering/round trip, sum/diff centre and counts, round trip "
               "identity iff equal spans (with a counter-example), transpose of every rows×cols shape (cols ≥ 1), flat-array "
               "re-chunking. The Float run of the same definitions is compared bit-for-bit (2-D values, indices, transpose) or "
@@ -12,20 +13,28 @@ LEVEL_NOTE = ("Model fidelity is checked, not proved (correspondence on generate
               "Theorems are over ℝ/any field; floating-point rounding is measured only. Range evaluation (jsa/jsi/singles *_range) is "
               "checked implementation-against-itself.")
 OPS = {"steps", "steps_drain", "steps_width", "steps2d", "steps2d_drain", "idx2", "idx1", "transpose",
-       "conv_recip", "to_sumdiff", "from_sumdiff", "sd_points"}
-TOL = {"steps": ("ulp", 2), "steps_drain": ("ulp", 2), "steps_width": ("ulp", 2),
+       "conv_recip", "to_sumdiff", "from_sumdiff", "sd_points", "steps_prog", "steps2d_prog"}
+TOL = {"steps": ("ulp", 2), "steps_drain": ("ulp", 2), "steps_width": ("ulp", 2), "steps_prog": ("ulp", 2),
        "conv_recip": ("ulp", 2), "to_sumdiff": ("ulp", 2), "from_sumdiff": ("ulp", 4), "sd_points": ("ulp", 4)}
 DEFAULT_TOL = ("exact",)
 RULE = ("family grid: exhaustive counts 0–12 × 6 endpoint pairs, 2-D counts 0–6², index maps cols 0–12, transposes of all shapes "
         "≤ 7×7 (quick) / 12×12 (thorough) and ragged lengths; then seeded random endpoints (zeros, ±0, huge, wavelength- and "
-        "frequency-like) × counts; conversions on random bands")
+        "frequency-like) × counts; conversions on random bands. family iterprog: programs (≤ 12 calls, ≤ 2 nested consuming "
+        "adaptors on the concrete crate type) of std Iterator / DoubleEndedIterator / ExactSizeIterator methods — next, next_back, "
+        "nth, nth_back, len, size_hint, skip, step_by, take, rev, peekable, enumerate, zip, fuse, chain, cycle, find/rfind, "
+        "position/rposition, any, count, last, collect, fold/rfold, for_each, max_by/min_by, by_ref() forms — on Steps, Steps2D, "
+        "Iterator2D::new, the five into_signal_idler_iterator() routes, chain/zip of two partly consumed ranges, against the same "
+        "program on Vec::into_iter() over the documented points: every boundary program (taken 0–4 from one end × jump 0..n+1 from "
+        "the other, every stride 1..n+1) for counts 0–6 (quick) / 0–9 and grids ≤ 3×3 / 4×4, then seeded random ranges and programs "
+        "(arguments 0, 1, n−1, n, n+1, usize::MAX …); primitive programs also against the Lean state machine (K steps_prog, steps2d_prog)")
 RESIDUAL = "floating-point rounding of the grid values (measured by the comparison, not proved)"
-CHECKER_MODULES = ["Spdc.Real.GridLemmas"]
+CHECKER_MODULES = ["Spdc.Real.GridLemmas", "Spdc.Real.GridProgLemmas"]
 
 
 def families(tier, seed):
     n = 600 if tier == "quick" else 20000
-    return [("grid", seed, n, [])]
+    m = 150 if tier == "quick" else 3000
+    return [("grid", seed, n, []), ("iterprog", seed, m, [])]
 
 
 # ------------------------------------------------------------------------------------------------------------------------------
